@@ -26,6 +26,10 @@ func genC35(t *rapid.T) C35Case {
 	wl := genCompileWL(t, 5, rapid.IntRange(0, 3).Draw(t, "defects") == 0)
 	c := C35Case{WL: wl, Par: rapid.IntRange(1, 4).Draw(t, "par")}
 	c.Roots = genRequest(t, wl.names())
+	if rapid.IntRange(0, 4).Draw(t, "hub") == 0 {
+		c.Roots = addHubClash(t, &wl)
+		c.WL = wl
+	}
 	c.Steps = genEditSteps(t, &wl, rapid.IntRange(1, 5).Draw(t, "nsteps"))
 	c.Sched = Sched{Tape: genTape(t, 500), Disabled: genDisabled(t, incrOptional), PCT: genPCT(t, 200)}
 	return c
